@@ -506,11 +506,17 @@ class StdioClient:
                         else:
                             logger.error(f"Task error during shutdown: {e}")
 
-            if self.process and self.process.returncode is None:
-                await self._terminate_process()
-
         except Exception as e:
             logger.debug(f"Error during stdio client shutdown: {e}")
+        finally:
+            # Always reap the child, even when the caller's scope is cancelled
+            # (every unshielded await would raise immediately in that case)
+            with anyio.CancelScope(shield=True):
+                try:
+                    if self.process and self.process.returncode is None:
+                        await self._terminate_process()
+                except Exception as e:
+                    logger.debug(f"Error during stdio client shutdown: {e}")
 
         return False
 
